@@ -6,7 +6,9 @@ predicate (real code): the perturbation experiment — re-inject buffers changed
 > t (new running maximum, barrier crossing, variance jump) and compare compute_hedge[..., :t+1]
 bitwise; last column == the one before it.  Price series with NON-POSITIVE entries (injected zeros / negative values, real VasicekRate
 simulations crossing zero) for every feature, the closed-form models and shared feature objects: nan / -inf compared as equal (nan == nan),
-non-anticipativity demanded of whatever is produced.
+non-anticipativity demanded of whatever is produced.  Hedgers with user FORWARD HOOKS / PRE-HOOKS registered after construction (hedger or
+model; appended / prepended / with_kwargs; lot-size rounding, caps, feature transforms), both evaluation orders: last column, perturbation
+experiment, bitwise agreement with the hook-free hedger the hook protocol implies (also sent to the Lean model where expressible).
 """
 from fractions import Fraction as F
 from common import *  # noqa
@@ -507,6 +509,227 @@ def nonpositive_prices(ctx, torch, g, reqs, metas):
                       "compute_hedge:nonpositive:lookahead")
 
 
+# ---- hedgers with user FORWARD HOOKS / FORWARD PRE-HOOKS ----------------------------------------------------------------------------
+# A Hedger is a torch Module: the PyTorch way to constrain its positions without touching the model (lot-size rounding, position caps,
+# a long-only floor) is a forward hook that returns a modified output, registered after construction on the hedger or on its model;
+# a forward pre-hook transforms the features the model sees.  The hook protocol fixes what such a hedger computes:
+#   * a hook on the MODEL, or a hook put in front of the hedger's own hooks (prepend=True): the hedger behaves as the hedger whose
+#     model is Sequential(model, post) — `prev_hedge` reads the post-processed position;
+#   * a hook appended to the hedger (the default: it runs after the hook that records `prev_hedge`): `prev_hedge` reads the raw model
+#     output, the reported positions are post(positions of the hedger without the hook), element by element;
+#   * a pre-hook (hedger or model): the hedger whose model is Sequential(pre, model).
+# The hooks used are element-wise and made of exact / correctly rounded operations, so the implied positions are compared BITWISE.
+# Whatever the hook, the position at the final index must be the one held over the last step and steps 0..t must not move when only
+# later prices change.  Both evaluation orders: state-independent inputs (all steps at once) and inputs with prev_hedge (step by step).
+HOOK_WHERE = ["hedger", "hedger_kwargs", "hedger_prepend", "model", "pre_hedger", "pre_model"]
+HOOK_KINDS = ["lot", "cap", "lot_cap", "collar", "relu", "half", "shift"]
+HOOK_MODELS = ["linear", "mlp", "prev", "prev_mlp", "bs", "ww", "naked", "modout_prev"]
+
+
+def gen_hook(g, kinds=HOOK_KINDS, force=None):
+    return dict(kind=force or g.choice(kinds), lot=g.choice([F(1, 2), F(1, 4), F(1, 8)]), cap=g.choice([F(1, 2), F(3, 4), F(1), F(2)]),
+                floor=g.choice([F(-1, 2), F(0), F(1, 4)]))
+
+
+def hook_fn(spec):
+    """the element-wise post-processing (positions) / pre-processing (features) of a hook"""
+    k, lot, cap, floor = spec["kind"], float(spec["lot"]), float(spec["cap"]), float(spec["floor"])
+    if k == "lot":              # positions are traded in lots
+        return lambda o: (o / lot).round() * lot
+    if k == "cap":              # position cap
+        return lambda o: o.clamp(max=cap)
+    if k == "lot_cap":
+        return lambda o: ((o / lot).round() * lot).clamp(max=cap)
+    if k == "collar":
+        return lambda o: o.clamp(min=floor, max=cap)
+    if k == "relu":             # long only
+        return lambda o: o.relu()
+    if k == "half":
+        return lambda o: o * 0.5
+    if k == "shift":
+        return lambda o: o + 0.25
+    raise ValueError(k)
+
+
+def hook_json(spec):
+    return {"kind": spec["kind"], "lot": rat_str(spec["lot"]), "cap": rat_str(spec["cap"]), "floor": rat_str(spec["floor"])}
+
+
+def hooked_hedgers(ctx, torch, g, reqs, metas):
+    from pfhedge.nn import Hedger, BlackScholes, WhalleyWilmott
+    from pfhedge.features import ModuleOutput
+
+    class Fn(torch.nn.Module):
+        def __init__(self, fn):
+            super().__init__()
+            self.fn = fn
+
+        def forward(self, x):
+            return self.fn(x)
+
+    def register(hedger, where, fn):
+        if where == "hedger":
+            return hedger.register_forward_hook(lambda m, i, o: fn(o))
+        if where == "hedger_kwargs":
+            return hedger.register_forward_hook(lambda m, a, kw, o: fn(o), with_kwargs=True)
+        if where == "hedger_prepend":
+            return hedger.register_forward_hook(lambda m, i, o: fn(o), prepend=True)
+        if where == "model":
+            return hedger.model.register_forward_hook(lambda m, i, o: fn(o))
+        if where == "pre_hedger":
+            return hedger.register_forward_pre_hook(lambda m, a: (fn(a[0]),))
+        return hedger.model.register_forward_pre_hook(lambda m, a: fn(a[0]))
+
+    pool = [nm for nm in BASE_FEATURES if nm != "empty"]
+    for rep in range(3 if ctx.tier == "quick" else 12):
+        for kind in HOOK_MODELS:
+            for where in HOOK_WHERE:
+                mk = gen_market(g)
+                T, N = mk["T"], mk["N"]
+                if rep == 0 and T == 2:
+                    mk = gen_market(g, T=g.choice([3, 4, 5, 6]))
+                    T, N = mk["T"], mk["N"]
+                stepwise = kind in ("prev", "prev_mlp", "ww", "modout_prev")
+                H = 1 if kind in ("bs", "ww") else g.choice([1, 1, 2, 3])
+                thr = g.choice([x for p in mk["spot"] for x in p])
+                pre = where.startswith("pre_")
+                # the first round: a post-processing that changes every position (shift) / every feature (half)
+                if kind in ("bs", "ww") and pre:      # features of the closed-form models: the volatility must stay positive
+                    spec = gen_hook(g, ["half", "cap", "shift", "relu"], force="half" if rep == 0 else None)
+                else:
+                    spec = gen_hook(g, force=("half" if pre else "shift") if rep == 0 else None)
+                fn = hook_fn(spec)
+                lean_ms = None
+                if kind in ("bs", "ww"):
+                    mk["option"] = "EuropeanOption"
+                    if mk["primary"] == "LocalVolatilityStock":
+                        mk["primary"] = "BrownianStock"
+                        mk["vol"] = [[mk["sigma"]] * T for _ in range(N)]
+                    mk["vol"] = [[v if v > 0 else F(1, 4) for v in r] for r in mk["vol"]]
+                    mk["var"] = [[v * v for v in r] for r in mk["vol"]]
+                    d, u = build_derivative(torch, mk)
+                    a = g.choice([0.25, 1.0, 3.0])
+                    names = ["log_moneyness", "time_to_maturity", "volatility"] + (["prev_hedge"] if kind == "ww" else [])
+                    fj = [feature_json(nm) for nm in names]
+
+                    def mk_model():
+                        return BlackScholes(d) if kind == "bs" else WhalleyWilmott(d, a=a)
+
+                    def mk_feats():
+                        return list(mk_model().inputs())
+                    msj = {"kind": kind, "a": a}
+                else:
+                    d, u = build_derivative(torch, mk)
+                    names = [g.choice(pool) for _ in range(g.choice([1, 2, 3]))]
+                    if kind == "modout_prev":       # prev_hedge is read INSIDE a ModuleOutput feature (e.g. a no-transaction band module)
+                        sub_ms = gen_linear(g, 1 + H, 2)
+                        ms = gen_linear(g, len(names) + 2, H)
+                        inner, plain = names[0], list(names)
+
+                        def mk_feats():
+                            return [feature_obj(torch, nm, mk, thr) for nm in plain] + \
+                                [ModuleOutput(model_obj(torch, sub_ms), [feature_obj(torch, inner, mk, thr), "prev_hedge"])]
+                        fj = [feature_json(nm, thr) for nm in names] + [["module_output", model_json(sub_ms), [feature_json(inner, thr), ["prev_hedge"]]]]
+                        names = names + ["module_output(prev_hedge)"]
+                    else:
+                        width = len(names) + (H if stepwise else 0)
+                        ms = dict(kind="naked", h=H) if kind == "naked" else (gen_mlp(g, width, H) if kind in ("mlp", "prev_mlp") else gen_linear(g, width, H))
+                        plain = list(names)
+
+                        def mk_feats():
+                            return [feature_obj(torch, nm, mk, thr) for nm in plain] + (["prev_hedge"] if stepwise else [])
+                        fj = [feature_json(nm, thr) for nm in names] + ([["prev_hedge"]] if stepwise else [])
+                        if stepwise:
+                            names = names + ["prev_hedge"]
+
+                    def mk_model():
+                        return model_obj(torch, ms)
+                    msj = model_json(ms)
+                    # the hedger the hook implies, where the model language can express it (sent to the Lean model as well)
+                    if ms["kind"] == "linear" and spec["kind"] == "relu" and not pre and (where in ("hedger_prepend", "model") or not stepwise):
+                        lean_ms = dict(ms, relu=True)
+                    elif ms["kind"] == "linear" and spec["kind"] == "half" and pre:
+                        lean_ms = dict(ms, w=[[x / 2 for x in r] for r in ms["w"]])
+                    elif ms["kind"] == "mlp" and spec["kind"] == "half" and pre:
+                        l0 = ms["layers"][0]
+                        lean_ms = dict(ms, layers=[dict(l0, w=[[x / 2 for x in r] for r in l0["w"]])] + ms["layers"][1:])
+                    if kind == "modout_prev":
+                        lean_ms = None
+                hedge = [u] + extra_hedges(torch, g, mk, H - 1)
+                hedger = Hedger(mk_model(), mk_feats())
+                handle = register(hedger, where, fn)
+                # the hedger the hook protocol implies, built WITHOUT hooks
+                if where in ("hedger", "hedger_kwargs"):
+                    oracle, after = Hedger(mk_model(), mk_feats()), fn
+                elif pre:
+                    oracle, after = Hedger(torch.nn.Sequential(Fn(fn), mk_model()), mk_feats()), None
+                else:
+                    oracle, after = Hedger(torch.nn.Sequential(mk_model(), Fn(fn)), mk_feats()), None
+                t = g.randint(0, T - 2)
+                m2 = perturb(g, mk, t)
+                grad_on = g.chance(0.3)
+                case = {"forward_hooks": where, "hook": hook_json(spec), "kind": kind, "stepwise": stepwise, "H": H, "features": names, "thr": rat_str(thr),
+                        "model": msj, "option": mk["option"], "primary": mk["primary"], "T": T, "N": N, "spot": enc_rat(mk["spot"]),
+                        "vol": enc_rat(mk["vol"]), "strike": rat_str(mk["strike"]), "dt": rat_str(mk["dt"]), "call": mk["call"],
+                        "cost": rat_str(mk["cost"]), "t": t, "grad_enabled": grad_on}
+                with torch.set_grad_enabled(grad_on):
+                    inject(torch, u, mk)
+                    st, out, mut = call_impl(hedger.compute_hedge, d, hedge, watch=[("derivative", d)])
+                    sto, exp, _ = call_impl(oracle.compute_hedge, d, hedge)
+                    inject(torch, u, m2)
+                    st2, out2, _ = call_impl(hedger.compute_hedge, d, hedge)
+                    inject(torch, u, mk)
+                    handle.remove()
+                    st3, out3, _ = call_impl(hedger.compute_hedge, d, hedge)
+                    stp, plain_out, _ = call_impl(Hedger(mk_model(), mk_feats()).compute_hedge, d, hedge)
+                if mut:
+                    ctx.mutated("compute_hedge", mut, case)
+                ctx.stats[f"hooks:{where}"] += 1
+                ctx.stats[f"hooks:model={kind}"] += 1
+                ctx.case(case, True, tag="forward_hooks")
+                ctx.traces += 1
+                if not (st == sto == st2 == st3 == stp == "ok"):
+                    ctx.fail("compute_hedge raised for a hedger with a user forward (pre-)hook, for the hedger the hook implies, or after the hook was "
+                             "removed", case, key="compute_hedge:hooks:error",
+                             detail=[str(x)[:100] for x in (out, exp, out2, out3, plain_out) if not hasattr(x, "shape")])
+                    continue
+                out, exp, out2, out3, plain_out = (x.detach() for x in (out, exp, out2, out3, plain_out))
+                if after is not None:
+                    exp = after(exp)
+                if tuple(out.shape) != (N, H, T) or tuple(out2.shape) != (N, H, T):
+                    ctx.fail("compute_hedge has the wrong shape (hedger with a forward hook)", case, key="compute_hedge:hooks:shape", detail=list(out.shape))
+                    continue
+                base, pert = out.tolist(), out2.tolist()
+                # --- no trade at maturity, whatever the hook does to the positions
+                if any(not same_nan(r[T - 1], r[T - 2]) for pth in base for r in pth) or any(not same_nan(r[T - 1], r[T - 2]) for pth in pert for r in pth):
+                    ctx.fail(f"the position at the final time index differs from the one held over the last step for a hedger with a user forward "
+                             f"{'pre-' if pre else ''}hook ({where}, {spec['kind']}): a trade at maturity", case, key="compute_hedge:hooks:last-column",
+                             detail={"hedge": base, "hedge_perturbed_market": pert})
+                # --- perturbation experiment
+                for p in range(N):
+                    bad = [hh for hh in range(H) if not same_nan(base[p][hh][: t + 1], pert[p][hh][: t + 1])]
+                    if bad:
+                        hh = bad[0]
+                        ctx.fail("hedge ratios for steps 0..t change when only prices/variances after step t are changed (look-ahead; hedger with a user "
+                                 "forward hook)", case | {"perturbed_spot": enc_rat(m2["spot"]), "perturbed_vol": enc_rat(m2["vol"])},
+                                 key="compute_hedge:hooks:lookahead", detail={"before": base[p][hh][: t + 1], "after": pert[p][hh][: t + 1], "path": p})
+                        break
+                # --- every step agrees with what the hook protocol implies
+                if not same_nan(base, exp.tolist()):
+                    ctx.fail(f"the positions of a hedger with a user forward {'pre-' if pre else ''}hook ({where}) differ from the ones the hook implies "
+                             "(the hook-free hedger composed with the same processing)", case, key="compute_hedge:hooks:implied",
+                             detail={"hedge": base, "implied": exp.tolist()})
+                if not same_nan(out3.tolist(), plain_out.tolist()):
+                    ctx.fail("after the hook was removed the hedger differs from a hedger that never had one", case, key="compute_hedge:hooks:removed",
+                             detail={"hedge": out3.tolist(), "plain": plain_out.tolist()})
+                if lean_ms is not None:
+                    tol = any(nm in LOG_FEATURES or nm == "time_to_maturity" for nm in names)
+                    for p in range(N):
+                        reqs.append({"op": "hedge", "market": market_json(mk, p), "features": fj, "model": model_json(lean_ms), "n": T, "h": H})
+                        metas.append((case | {"path": p}, tol, [[base[p][hh][tt] for hh in range(H)] for tt in range(T)]))
+                        ctx.stats["hooks:sent-to-model"] += 1
+
+
 def check(ctx):
     torch, pfhedge = import_impl()
     from pfhedge.nn import Hedger, Naked, BlackScholes, WhalleyWilmott
@@ -688,6 +911,9 @@ def check(ctx):
     # ---------------- price series with non-positive entries (rates crossing zero, prices that hit zero): every feature, the closed-form
     # models, shared feature objects
     nonpositive_prices(ctx, torch, g, reqs, metas)
+    # ---------------- hedgers with user forward hooks / pre-hooks (lot-size rounding, position caps, feature transforms), registered after
+    # construction on the hedger or on its model, state-independent and prev_hedge-consuming inputs
+    hooked_hedgers(ctx, torch, g, reqs, metas)
     try:
         outs = ctx.driver(reqs)
     except DriverBroken as e:
@@ -712,4 +938,6 @@ def check(ctx):
              "columns > t making later prices new extremes / crossing barriers / changing variance; non-trivial = perturbation changes a whole-path "
              "statistic (max/min); price series with non-positive entries (zeros, negative values, simulated VasicekRate paths crossing zero) for every "
              "feature x underlier x derivative, BlackScholes / WhalleyWilmott and shared ModuleOutput objects, the perturbation always moving the "
-             "smallest positive price, nan-aware bitwise comparison; distinct = sha1 of canonical case")
+             "smallest positive price, nan-aware bitwise comparison; hedgers with user forward hooks / pre-hooks (on the hedger appended / prepended / "
+             "with_kwargs, on the model) x all model kinds x both evaluation orders: last column, perturbation, bitwise agreement with the hook-free "
+             "hedger the hook protocol implies, hook removal; distinct = sha1 of canonical case")
